@@ -156,6 +156,10 @@ func (p *c02) RunCase(ctx *runner.Ctx) runner.CaseResult {
 	x := newRes()
 	r := mon.Rng(ctx.Seed, "C02", ctx.Case)
 	adapter := adapt.Adapters[ctx.Case%2]
+	if ctx.Case%5 == 4 {
+		p.hashOnly(x, r, adapter, ctx)
+		return x.r
+	}
 	spec := ixSpec("tbl02", true)
 	cl, m, hist, ok := buildState(r, adapter, spec, 15+r.Intn(30), ctx, x)
 	if !ok {
@@ -265,4 +269,78 @@ func keyCondHashOnly(op adapt.Op) *refmodel.Cond {
 		}
 	}
 	return c
+}
+
+// hashOnly: the same request matrix on a hash-only base table with a hash-only GSI and a
+// hash+range GSI (Query on the base table returns at most one item; index partitions hold several).
+func (p *c02) hashOnly(x *res, r *rand.Rand, adapter string, ctx *runner.Ctx) {
+	spec := adapt.TableSpec{Name: "tbh02", Hash: "h", Billing: "PAY_PER_REQUEST", Indexes: []adapt.IndexSpec{{Name: "gsi1", Hash: "g"}, {Name: "gsi2", Hash: "g", Range: "s"}, {Name: "gsi5", Hash: "s", Range: "h"}}}
+	cl, m, ds := freshClient(adapter, spec)
+	if ds != nil {
+		x.viol("setup", "create", ds[0].Detail, spec)
+		return
+	}
+	hist := []adapt.Op{}
+	hpool := []string{"p", "p.q", "pq", "q", "1", "10", "9"}
+	for i := 0; i < 10+r.Intn(25); i++ {
+		key := val.Item{"h": val.Str(mon.Pick(r, hpool))}
+		switch r.Intn(8) {
+		case 0, 1, 2, 3:
+			it := ixItem(key["h"].Str, "", maybe(r, ixGPool, 25), maybe(r, ixSPool, 25), i)
+			delete(it, "r")
+			hist = append(hist, adapt.Op{Kind: adapt.OpPut, Table: spec.Name, Item: it})
+		case 4:
+			hist = append(hist, mon.SetUpdate(spec.Name, key, mon.Pick(r, []string{"g", "s"}), val.Str(mon.Pick(r, []string{"x", "y", "1", "10"}))))
+		case 5:
+			hist = append(hist, mon.RemoveUpdate(spec.Name, key, mon.Pick(r, []string{"g", "s"})))
+		default:
+			hist = append(hist, adapt.Op{Kind: adapt.OpDelete, Table: spec.Name, Key: key})
+		}
+	}
+	st := &mon.HistoryStats{}
+	if f := mon.RunHistory(cl, m, hist, mon.KeyLog{}, false, nil, ctx.Trace, st); f != nil {
+		x.failureViolation(adapter, f, spec)
+		return
+	}
+	x.r.Evals += st.Calls
+	srcs := []source{{"", "h", append(append([]string{}, hpool...), "zz"), "", nil}, {"gsi1", "g", []string{"x", "y", "zz"}, "", nil}, {"gsi2", "g", []string{"x", "y", "1"}, "s", ixSPool}, {"gsi5", "s", []string{"1", "10", "9", "x"}, "h", hpool}}
+	for _, src := range srcs {
+		for _, hv := range src.hashPool {
+			kinds := sortConds
+			if src.rngAttr == "" {
+				kinds = sortConds[:1]
+			}
+			for _, sk := range kinds {
+				for _, rev := range []bool{false, true} {
+					values := val.Item{":h": val.Str(hv)}
+					kc := keyCondEq(src.hashAttr, ":h")
+					if sc := sortKeyCond(sk, src.rngAttr, src.rngPool, r, values); sc != nil {
+						kc = &refmodel.Cond{Op: "and", Kids: []*refmodel.Cond{kc, sc}}
+					}
+					var flt *refmodel.Cond
+					if r.Intn(3) == 0 {
+						flt = typedFilter(r, values, "f")
+					}
+					op := queryOp(spec.Name, src.index, kc, flt, values, rev, refmodel.RenderOpts{})
+					got := cl.Do(op)
+					x.r.Evals++
+					x.r.Counters["hash_only_table_requests"]++
+					if ds := m.Step(op, got); len(ds) > 0 {
+						f := &mon.Failure{Step: len(hist), Phase: "result", Diffs: ds, Op: op, Got: got.Short(), Prefix: append(append([]adapt.Op{}, hist...), op)}
+						x.failureViolation(adapter, f, spec)
+						return
+					}
+					x.fp(len(got.Items) >= 2, "%s|hashonly|%s|%s|%v|%s", adapter, src.index, sk, rev, sizeClass(len(got.Items)))
+				}
+			}
+		}
+		op := scanOp(spec.Name, src.index, nil, nil, refmodel.RenderOpts{})
+		got := cl.Do(op)
+		x.r.Evals++
+		if ds := m.Step(op, got); len(ds) > 0 {
+			f := &mon.Failure{Step: len(hist), Phase: "result", Diffs: ds, Op: op, Got: got.Short(), Prefix: append(append([]adapt.Op{}, hist...), op)}
+			x.failureViolation(adapter, f, spec)
+			return
+		}
+	}
 }
